@@ -256,12 +256,14 @@ def config_harness(c):
     keys, vals = config_candidates()
     k = symx.SymKind("cfg_key", keys, c).realise()
     v = symx.SymKind("cfg_val", vals, c).realise()
-    via_attr = c.pick(2)
+    via_attr = c.pick(3)  # 0: item assignment, 1: attribute assignment, 2: constructor dict
     cfg = Config()
     before = cfg[KEY]
     ok = k == KEY and v in MODES
     try:
-        if via_attr:
+        if via_attr == 2:
+            cfg = Config({k: v})
+        elif via_attr:
             setattr(cfg, k, v)
         else:
             cfg[k] = v
@@ -290,7 +292,9 @@ def replay_config(info):
     before = cfg[KEY]
     ok = info["key"] == KEY and info["value"] in MODES
     try:
-        if info["via_attr"]:
+        if info["via_attr"] == 2:
+            cfg = Config({info["key"]: info["value"]})
+        elif info["via_attr"]:
             setattr(cfg, info["key"], info["value"])
         else:
             cfg[info["key"]] = info["value"]
